@@ -170,6 +170,16 @@ def skipping(ctx, F, q, inner, rng):
             lit = edge_literal(b, R, sw, cfg.edge_label[e])
             if lit and lit[0] == 'true':
                 true_edges.append(e)
+        # the outcome may be held in a variable and tested more than once (`let skipped = ..; if skipped && first {..} if skipped {continue}`):
+        # every test of that same value is a test of the range
+        test_expr = s(('call', 'RangeBounds::contains', tuple(ca)))
+        for sb_, bl_ in b.live_blocks():
+            if bl_['term']['k'] != 'switch' or sb_ == sw:
+                continue
+            for e in cfg.edge_nodes(sb_):
+                lit = edge_literal(b, R, sb_, cfg.edge_label[e])
+                if lit and lit[0] == 'true' and s(lit[1]) == test_expr and e not in true_edges:
+                    true_edges.append(e)
     some_edge = None
     for sb, bl in b.live_blocks():
         if bl['term']['k'] == 'switch' and sb in cfg.loop_of(h):
